@@ -75,7 +75,13 @@ Definition judge2 (a : list (@event val)) (sa : status) (b : list (@event val)) 
   | Some i => mk 1 i
   | None =>
       match sa, sb with
-      | Running, _ | _, Running => mk 0 0              (* a fuel cut: only the common prefix counts *)
+      | Running, Running => mk 0 0                      (* two fuel cuts: only the common prefix counts *)
+      (* one run was cut by the fuel, the other one has stopped for good: if the stopped one produced
+         fewer events than the other already has, it will never produce them *)
+      | Running, Err _ => if Nat.ltb nb na then mk 4 nb else mk 0 0
+      | Running, Halted => if Nat.ltb nb na then mk 3 nb else mk 0 0
+      | Err _, Running => if Nat.ltb na nb then mk 4 na else mk 0 0
+      | Halted, Running => if Nat.ltb na nb then mk 3 na else mk 0 0
       | _, _ => if Nat.eqb na nb then (if Nat.eqb (status_code sa) (status_code sb) then mk 0 0 else mk 4 na)
                 else mk 3 (Nat.min na nb)
       end
@@ -86,9 +92,19 @@ Definition judge2 (a : list (@event val)) (sa : status) (b : list (@event val)) 
    compared with each other, so that this one defect does not hide others. *)
 Definition falls_seq (p : @program val) (i : nat) : bool :=
   match nth_error p i with
-  | Some (LInstr IJ _) | Some (LInstr IJr _) | Some (LInstr IHcf _) => false
+  | Some (LInstr IJ _) | Some (LInstr IJr _) | Some (LInstr IHcf _) | Some (LInstr IJal _) => false
   | Some _ => true
   | None => false
+  end.
+(* the same defect in a label-free rendering: the main code's own end label has disappeared, so a
+   jump to it (`break` out of the last loop) lands directly on the first function's entry.  A plain
+   `j` (not `jal`) from a line that stands before every function region onto a region entry is
+   therefore treated like the sequential fall-through. *)
+Definition plain_jump (p : @program val) (i : nat) : bool :=
+  match nth_error p i with
+  | Some (LInstr IJ _) | Some (LInstr (IBr _ false false) _) | Some (LInstr (IBrz _ false false) _)
+  | Some (LInstr (IBnan false) _) | Some (LInstr (IBdse false false) _) | Some (LInstr (IBdns false false) _) => true
+  | _ => false
   end.
 Fixpoint run_guard (O : @oracle val) (p : @program val) (entries : list nat) (fuel : nat) (s : @state val) : @state val :=
   match fuel with
@@ -97,7 +113,9 @@ Fixpoint run_guard (O : @oracle val) (p : @program val) (entries : list nat) (fu
       match st s with
       | Running =>
           let s' := step A O p s in
-          if Nat.eqb (pc s') (S (pc s)) && existsb (Nat.eqb (pc s')) entries && falls_seq p (pc s)
+          if existsb (Nat.eqb (pc s')) entries &&
+             ((Nat.eqb (pc s') (S (pc s)) && falls_seq p (pc s))
+              || (plain_jump p (pc s) && forallb (fun e => Nat.ltb (pc s) e) entries))
           then halt s' else run_guard O p entries k s'
       | _ => s
       end
